@@ -85,51 +85,91 @@ def corpus(ctx):
     return res
 
 
-def witness_c14(ctx):
-    """R14.4: compile-fail witness (E0597/E0505) and compiling twin against the current tree's rmeta"""
+WITNESSES = {
+    # property -> [(stem, rule, accepted error codes, anchor, instance, what the witness establishes)]
+    'C14': [('c14_subset', 'R14.4', {'E0597', 'E0505', 'E0716'}, 'utils::nms::nms', 'witness:result-cannot-outlive-input',
+             'the result of nms() borrows from the input detections (subset of the input by lifetime)')],
+    'C03': [('c03_store_private', 'R03.1', {'E0616'}, 'trackers::sort::simple_api::Sort::new',
+             'witness:tracker-stores-are-private',
+             'code outside the crate cannot reach the tracker\'s stores (conservation is a property of the crate)')],
+    'C09': [('c03_store_private', 'R09.3', {'E0616'}, 'trackers::sort::simple_api::Sort::new',
+             'witness:tracker-stores-are-private',
+             'code outside the crate cannot reach the tracker\'s stores')],
+    'C11': [('c11_merge_history_private', 'R11.5', {'E0616'}, 'track::Track::merge',
+             'witness:merge-history-is-private',
+             'a track\'s merge history is only reachable through the track\'s own mutators')],
+    'C07': [('c07_state_private', 'R07.8', {'E0616'}, 'utils::kalman::kalman_2d_box::Universal2DBoxKalmanFilter::update',
+             'witness:filter-state-is-private', 'mean and covariance change only through initiate/predict/update')],
+    'C19': [('c19_cache_private', 'R19.5', {'E0451'}, 'utils::bbox::Universal2DBox::gen_vertices',
+             'witness:vertex-cache-is-private', 'a box cannot be built with a hand-made vertex cache')],
+    'C08': [('c19_cache_private', 'R08.6', {'E0451'}, 'utils::bbox::Universal2DBox::gen_vertices',
+             'witness:vertex-cache-is-private', 'a box cannot be built with a hand-made vertex cache')],
+}
+
+
+def witnesses(ctx):
+    """compile-fail witnesses (expected error code) with compiling twins, against the current tree's rmeta"""
+    todo = WITNESSES.get(ctx.prop, [])
+    if not todo:
+        return None
     env = extract.base_env()
     tdir = os.path.join(extract.BUILD, 'target-witness')
     env['CARGO_TARGET_DIR'] = tdir
     env['RUSTFLAGS'] = '-C target-cpu=x86-64-v3 -Awarnings'
-    r = subprocess.run(['cargo', '+nightly', 'check', '--offline', '--lib'], cwd=extract.REPO, env=env,
-                       capture_output=True, text=True)
-    if r.returncode != 0:
-        return {'skipped': 'cargo check failed: ' + r.stderr[-300:]}
-    deps = os.path.join(tdir, 'debug', 'deps')
-    rmetas = sorted(glob.glob(os.path.join(deps, 'libsimilari-*.rmeta')), key=os.path.getmtime)
-    if not rmetas:
-        return {'skipped': 'no rmeta'}
-    out = {}
-    tmp = tempfile.mkdtemp(prefix='simlint-witness-')
+    lock = open(os.path.join(extract.BUILD, 'witness.lock'), 'w')
+    import fcntl
+    fcntl.flock(lock, fcntl.LOCK_EX)
     try:
-        for name in ('c14_subset_fail', 'c14_subset_twin'):
-            src = os.path.join(VERIF, 'witnesses', name + '.rs')
-            cmd = ['rustc', '+nightly', '--edition', '2021', '--emit=metadata', '--crate-type', 'bin', '-C',
-                   'target-cpu=x86-64-v3', '--extern', 'similari=' + rmetas[-1], '-L', 'dependency=' + deps,
-                   '--out-dir', tmp, src]
-            rr = subprocess.run(cmd, env=env, capture_output=True, text=True)
-            codes = sorted(set(x.split(']')[0] for x in rr.stderr.split('error[')[1:]))
-            out[name] = {'rc': rr.returncode, 'error_codes': codes}
+        r = subprocess.run(['cargo', '+nightly', 'check', '--offline', '--lib'], cwd=extract.REPO, env=env,
+                           capture_output=True, text=True)
+        if r.returncode != 0:
+            raise SystemExit('MACHINERY-ERROR: cargo check for the witnesses failed: ' + r.stderr[-300:])
+        deps = os.path.join(tdir, 'debug', 'deps')
+        rmetas = sorted(glob.glob(os.path.join(deps, 'libsimilari-*.rmeta')), key=os.path.getmtime)
+        if not rmetas:
+            raise SystemExit('MACHINERY-ERROR: no rmeta for the witnesses')
+        out = {}
+        tmp = tempfile.mkdtemp(prefix='simlint-witness-')
+        try:
+            for stem, R, codes, anchor, inst, what in todo:
+                res = {}
+                for kind in ('fail', 'twin'):
+                    src = os.path.join(VERIF, 'witnesses', '%s_%s.rs' % (stem, kind))
+                    cmd = ['rustc', '+nightly', '--edition', '2021', '--emit=metadata', '--crate-type', 'bin', '-C',
+                           'target-cpu=x86-64-v3', '--extern', 'similari=' + rmetas[-1], '-L', 'dependency=' + deps,
+                           '--out-dir', tmp, src]
+                    rr = subprocess.run(cmd, env=env, capture_output=True, text=True)
+                    ec = sorted(set(x.split(']')[0] for x in rr.stderr.split('error[')[1:]))
+                    res[kind] = {'rc': rr.returncode, 'error_codes': ec}
+                    if kind == 'twin' and rr.returncode != 0:
+                        res[kind]['stderr'] = rr.stderr[-400:]
+                out[stem] = res
+                b = ctx.F.one(anchor)
+                fail_ok = res['fail']['rc'] != 0 and set(res['fail']['error_codes']) and \
+                    set(res['fail']['error_codes']) <= codes
+                if res['twin']['rc'] == 0:
+                    ctx.check(bool(fail_ok), R, b or anchor, inst,
+                              'witness rejected with %s, twin compiles: %s' % (res['fail']['error_codes'], what),
+                              'the compile-fail witness witnesses/%s_fail.rs %s: it no longer holds that %s' % (
+                                  stem, 'compiles' if res['fail']['rc'] == 0 else 'fails for another reason %s' %
+                                  res['fail']['error_codes'], what))
+                else:
+                    # API used by the twin changed: the witness cannot be interpreted (not a verdict on the property)
+                    ctx.note(R, 'witness twin witnesses/%s_twin.rs does not compile on this tree (%s): witness not armed'
+                             % (stem, res['twin']['error_codes']))
+        finally:
+            shutil.rmtree(tmp, ignore_errors=True)
+        return out
     finally:
-        shutil.rmtree(tmp, ignore_errors=True)
-    b = ctx.F.one('utils::nms::nms')
-    fail_ok = out['c14_subset_fail']['rc'] != 0 and set(out['c14_subset_fail']['error_codes']) & {'E0597', 'E0505', 'E0716'}
-    twin_ok = out['c14_subset_twin']['rc'] == 0
-    if twin_ok:
-        ctx.check(bool(fail_ok), 'R14.4', b or 'utils::nms::nms', 'witness:result-cannot-outlive-input',
-                  'compile-fail witness rejected with %s, twin compiles' % out['c14_subset_fail']['error_codes'],
-                  'a program that uses the result of nms() after the input detections were dropped compiles (or fails '
-                  'for another reason %s): the result no longer borrows from the input, i.e. it is not tied to being a '
-                  'subset of the input boxes' % out['c14_subset_fail']['error_codes'])
-    else:
-        ctx.note('R14.4', 'witness twin does not compile on this tree (%s): witness not armed' % out['c14_subset_twin'])
-    return out
+        fcntl.flock(lock, fcntl.LOCK_UN)
+        lock.close()
 
 
 def run(ctx, mod, info):
     extra = {}
     extra['second_configuration'] = second_config(ctx, mod)
     extra['variant_corpus'] = corpus(ctx)
-    if ctx.prop == 'C14':
-        extra['compile_fail_witness'] = witness_c14(ctx)
+    w = witnesses(ctx)
+    if w is not None:
+        extra['compile_fail_witness'] = w
     ctx.extra = extra
